@@ -71,7 +71,7 @@ ANCHORS = [
     "aiohttp.base_protocol:BaseProtocol.pause_reading",
     "aiohttp.base_protocol:BaseProtocol.resume_reading",
 ]
-SHARD_TIMEOUT = {"quick": 600, "thorough": 3600}
+SHARD_TIMEOUT = {"quick": 1500, "thorough": 5400}
 
 SEP2 = b"<>"
 UNREAD = b"U\n"
@@ -781,6 +781,10 @@ class World:
             self.cnt("reentrant-steps")
             if rounds > 1:
                 self.cnt("reentrant-steps:several-resumes-in-one-call")
+            if call.fail is None:
+                # the call is running (the producer was re-entered from inside it), not waiting: a set_exception that
+                # arrives now is "after the wake-up", whatever the first model step concluded
+                call.released = True
             for op, snap, rnd in ops:
                 # only during the first resume of this call is the model's buffer known to be no fuller than the real one
                 self.model_apply(op, snap, True, rnd == first)
@@ -1389,7 +1393,6 @@ def run_random(rng, limit, rec, stats):
     budget = content.room() - 64
     cap = 5 * limit
     w = World(get_loop(), limit, content, gated, stats)
-    big = limit >= 1024
     readchunk_only = chunked and rng.random() < 0.25
     # the two-byte separator is used in a quarter of the programs only: the listed separator-split mechanism ends a
     # program at its first occurrence and must not thin out the other strata
